@@ -25,7 +25,7 @@ EXPLANATION = (
     "re-tests that the node heap is empty; (O3) the objective is the number of rolls of the returned plan - count and "
     "plan entry are written together, incumbents and the integral root are scored from the plan's own counts; (O4) "
     "the pricing DP's pattern passes the unscaled width re-check before it is returned; (O5) both two-phase master LPs "
-    "pivot basic artificial variables out between phase 1 and phase 2 (sibling of simplex._phase1). NOT decided: "
+    "pivot basic artificial variables out between phase 1 and phase 2 (sibling of simplex._phase1). (O6) the bounded master LP lays its bound rows out in the order in which the initial basis labels them. NOT decided: "
     "validity of the LP bound in general, quality of FEASIBLE plans."
 )
 
@@ -170,6 +170,19 @@ def run(ctx: Ctx):
                 leaves = [x for st_ in before for x in ast.walk(st_) if isinstance(x, (ast.Continue, ast.Break, ast.Return))]
                 ctx.ob("C17-O2", "R3 STATUS-USE", bnp, "the fact is cleared before anything can prune or leave the node (no continue/break/return between the node LP and the clearing)", not leaves, f"a `{type(leaves[0]).__name__.lower()}` at line {leaves[0].lineno} comes first: a node pruned because its restricted master was infeasible (value inf, not converged) is discarded as if its subtree were proven empty, and the incumbent is labelled OPTIMAL" if leaves else "", node=leaves[0] if leaves else c)
     ctx.require(proven is not None, "'bounds proven' variable not found in _branch_and_price")
+    # a `break` out of the node loop abandons the node that was just popped: the fact must be cleared first
+    main_loops = [n for n in own_nodes(bnp.node) if isinstance(n, ast.While) and "tree" in names_in(n.test)]
+    ctx.require(len(main_loops) == 1, "node loop of _branch_and_price not found")
+    n_brk = 0
+    for b in [x for x in ast.walk(main_loops[0]) if isinstance(x, ast.Break)]:
+        bn = bcfg.node_of(b)
+        if bn.loop is None or bn.loop.ast is not main_loops[0].test:
+            continue  # break of an inner loop
+        n_brk += 1
+        blk = _enclosing_block(bnp.node, b)
+        before = blk[: blk.index(b)]
+        ctx.ob("C17-O2", "R2 BUDGET-EXIT", bnp, "leaving the node loop with a popped node unprocessed clears the 'bounds proven' fact", any(ast.unparse(x) == f"{proven} = False" for x in before), "the abandoned node is no longer in the tree: `not tree` then looks like an exhausted search and the incumbent is labelled OPTIMAL", node=b)
+    ctx.floor("breaks out of the node loop", n_brk, 1)
     sets_true = [n for n in own_nodes(bnp.node) if isinstance(n, ast.Assign) and ast.unparse(n.targets[0]) == proven and ast.unparse(n.value) == "True"]
     ctx.ob("C17-O2", "R2 BUDGET-EXIT", bnp, "'bounds proven' never goes back to true", not sets_true, "", node=bnp.node)
     for k, s in enumerate(result_sites(bnp)):
@@ -260,6 +273,31 @@ def run(ctx: Ctx):
     ctx.ob("C17-O5", "R18 SIBLING-AGREEMENT (policy)", do, "pivot-out replaces only artificial basics (index >= n_orig) by a non-basic structural column with a non-zero entry", "if basis[i] < n_orig:\n            continue" in td and "abs(tab[i][j]) > eps" in td and "basis[i] = j" in td and "for j in range(n_orig)" in td, "", node=do.node)
     sp = ctx.func("simplex", "_phase1")
     ctx.ob("C17-O5", "R18 SIBLING-AGREEMENT (policy)", sp, "reference sibling: solve_lp's phase 1 pivots basic artificials out", "if basis[i] in art_cols" in ast.unparse(sp.node) and "_pivot(" in ast.unparse(sp.node), "", node=sp.node)
+    # O6 row layout of the bounded master LP = order of the initial basis labels
+    bm = ctx.func("bp", "_solve_bounded_master_lp")
+    row_loops = [n for n in own_nodes(bm.node) if isinstance(n, ast.For) and "col_bounds" in names_in(n.iter) and any(isinstance(x, ast.AugAssign) and ast.unparse(x.target) == "row_idx" for x in ast.walk(n))]
+    row_loops.sort(key=lambda n: n.lineno)
+    ctx.floor("bound-row loops in _solve_bounded_master_lp", len(row_loops), 1)
+    kinds_per_loop = []
+    for lp_ in row_loops:
+        kinds = []
+        for x in ast.walk(lp_):
+            if isinstance(x, ast.Assign) and ast.unparse(x.targets[0]).startswith("tab[row_idx]["):
+                cexp = names_in(x.targets[0])
+                if "art_idx" in cexp and "art" not in kinds:
+                    kinds.append("art")
+                elif "slack_idx" in cexp and "slack" not in kinds:
+                    kinds.append("slack")
+        kinds_per_loop.append(kinds)
+    layout = [k for ks in kinds_per_loop for k in ks]
+    grouped = all(len(ks) == 1 for ks in kinds_per_loop)
+    basis_groups = []
+    for n in own_nodes(bm.node):
+        if isinstance(n, ast.For) and any(isinstance(x, ast.Call) and ast.unparse(x.func) == "basis.append" for x in ast.walk(n)):
+            it = ast.unparse(n.iter)
+            basis_groups.append((n.lineno, {"range(m)": "demand", "range(n_lower)": "art", "range(n_upper)": "slack"}.get(it, it)))
+    order_b = [k for _, k in sorted(basis_groups)]
+    ctx.ob("C17-O6", "R5 PAIRING", bm, "bound rows are laid out group by group (all lower-bound rows, then all upper-bound rows), in the order in which the initial basis labels them", grouped and layout == ["art", "slack"] and order_b == ["demand", "art", "slack"], f"row groups per loop {kinds_per_loop}, basis groups {order_b}: with interleaved rows a slack is recorded as basic in an artificial's row, the pivot-out works on the wrong rows and the LP point violates a demand", node=row_loops[0] if row_loops else bm.node)
     generic_sweeps(ctx)
 
 
@@ -346,6 +384,25 @@ def _v_clear_after_prune(tree):
     M.replace_stmt(g, lambda s: isinstance(s, ast.If) and M.src_has(s.test, "lp_obj == float('inf')") and any(isinstance(x, ast.Continue) for x in ast.walk(s)), lambda s: [s, holder["s"]])
 
 
+def _v_progress_stop_keeps_proof(tree):
+    g = M.find_func(tree, "_branch_and_price")
+    M.replace_stmt(g, lambda s: isinstance(s, ast.If) and M.src_has(s.test, "report_progress") and any(isinstance(x, ast.Break) for x in s.body), lambda s: [ast.If(test=s.test, body=[ast.Break()], orelse=[])])
+
+
+def _v_bound_rows_interleaved(tree):
+    g = M.find_func(tree, "_solve_bounded_master_lp")
+    loops = [n for n in g.body if isinstance(n, ast.For) and M.src_has(n.iter, "col_bounds")]
+    if len(loops) != 2:
+        raise M.Skip("two bound-row loops expected")
+    upper_if = [x for x in loops[1].body if isinstance(x, ast.If)]
+    loops[0].body.extend(upper_if)
+    g.body.remove(loops[1])
+    slack_init = [x for x in g.body if M.src_is(x, "slack_idx = 0")]
+    for x in slack_init:
+        g.body.remove(x)
+        g.body.insert(g.body.index(loops[0]), x)
+
+
 def _t_reformat(tree):
     pass
 
@@ -365,6 +422,8 @@ VARIANTS = [
     M.Variant("cutting-stock plan published without demand verification", CG, _v_cs_no_verify, "C17-O1"),
     M.Variant("pricing returns the DP pattern without width re-check", PRI, _v_pricing_no_recheck, "C17-O4"),
     M.Variant("'bounds proven' cleared only after the prune (seed C17-B)", BP, _v_clear_after_prune, "C17-O2"),
+    M.Variant("progress stop abandons the popped node without clearing 'bounds proven' (original defect)", BP, _v_progress_stop_keeps_proof, "C17-O2"),
+    M.Variant("branching-bound rows written in one interleaved pass while the basis assumes grouped rows (seed C17-C)", BP, _v_bound_rows_interleaved, "C17-O6"),
     M.Variant("twin: reformat cg", CG, _t_reformat, None),
     M.Variant("twin: reformat bp", BP, _t_reformat, None),
     M.Variant("twin: reformat pricing", PRI, _t_reformat, None),
